@@ -21,7 +21,7 @@ DEFAULT_CFG = dict(
     save_every=None, shift=0.0,
 )
 
-TARGETS = {"plateau": targets.ll_plateau, "errsens": targets.ll_errsens, "gauss": targets.ll_gauss, "bimodal": targets.ll_bimodal, "flat": targets.ll_flat, "unequal": targets.ll_unequal, "corner": targets.ll_corner, "hole": targets.ll_hole, "sharp": targets.ll_sharp, "sliver": targets.ll_sliver, "weak": targets.ll_weak}
+TARGETS = {"sixblob": targets.ll_sixblob, "plateau": targets.ll_plateau, "errsens": targets.ll_errsens, "gauss": targets.ll_gauss, "bimodal": targets.ll_bimodal, "flat": targets.ll_flat, "unequal": targets.ll_unequal, "corner": targets.ll_corner, "hole": targets.ll_hole, "sharp": targets.ll_sharp, "sliver": targets.ll_sliver, "weak": targets.ll_weak}
 def _pt_affine32(u):
     return (20.0 * np.asarray(u) - 10.0).astype(np.float32)
 
@@ -133,6 +133,17 @@ def _as_callable(f, form, method):
     if form == "partial":
         return functools.partial(f)
     raise KeyError(form)
+
+
+# scopes beyond the small ones the exhaustive phases use: many particles, higher dimension, long runs (>150 iterations), many clusters
+LARGE = [
+    dict(n_particles=256, d=8, n_total=1024, eval="scalar", clustering=True, target="bimodal", sample="tpcn"),
+    dict(n_particles=512, d=10, n_total=2048, eval="vec", clustering=True, target="gauss", sample="rwm", resample="syst"),
+    dict(n_particles=16, d=2, n_total=16 * 160, eval="blobs", clustering=False, target="sharp", ess_ratio=1.0, max_iters=600),
+    dict(n_particles=128, d=6, n_total=640, eval="poolobj", clustering=True, target="unequal", vv=0.5, cluster_every=3),
+    dict(n_particles=1024, d=3, n_total=4096, eval="vec", clustering=True, target="bimodal", resample="syst", n_max_clusters=None),
+    dict(n_particles=24, d=2, n_total=24 * 110, eval="scalar", clustering=True, target="bimodal", cluster_every=2, ess_ratio=1.0, max_iters=600, sample="rwm"),
+]
 
 
 SPELL = {"int": int, "float": float, "np.int64": np.int64, "np.int32": np.int32, "np.uint8": np.uint8, "np.float64": np.float64, "np.float32": np.float32,
@@ -329,7 +340,7 @@ class Probe:
         self.iter_offset = iter_offset
         self.in_iter = False
         self.kernel_calls = []
-        self.max_iters = max_iters
+        self.max_iters = cfg.get("max_iters", max_iters)
         self.tape = OwnedRandom(iter_seed(base, 0, "init"))
         self.exc = None
         self.completed = False
